@@ -137,7 +137,14 @@ def parse_doc(data, info=None):
 
 
 def serialize(doc):
-    return doc.toxml(encoding='UTF-8')
+    # libxml2 xmlDocDump: declaration, newline, document element, newline
+    return b'<?xml version="1.0" encoding="UTF-8"?>\n' + doc.documentElement.toxml().encode('utf-8') + b'\n'
+
+
+def b64wrap(data):
+    """xmlsec writes base64 in lines of 64 characters separated by a newline."""
+    t = base64.b64encode(data).decode('ascii')
+    return '\n'.join(t[i:i + 64] for i in range(0, len(t), 64))
 
 
 # ---------------------------------------------------------------- ID handling
@@ -422,7 +429,7 @@ def sign_dom(doc, sig, key, ids, allowed=ALL_URI_KINDS, info=None):
         dv = child(ref, DS, 'DigestValue')
         if dv is None:
             raise Fail('DigestValue missing in template')
-        set_text(doc, dv, base64.b64encode(d).decode())
+        set_text(doc, dv, b64wrap(d))
     smn = child(si, DS, 'SignatureMethod')
     sm = smn.getAttribute('Algorithm') if smn is not None else None
     if sm not in SIGH:
@@ -431,7 +438,7 @@ def sign_dom(doc, sig, key, ids, allowed=ALL_URI_KINDS, info=None):
     svn = child(sig, DS, 'SignatureValue')
     if svn is None:
         raise Fail('SignatureValue missing in template')
-    set_text(doc, svn, base64.b64encode(sv).decode())
+    set_text(doc, svn, b64wrap(sv))
 
 
 def verify_dom(doc, sig, default_key, ids, allowed=ALL_URI_KINDS, enabled=None, info=None):
@@ -520,8 +527,8 @@ def fill_template(tmpl_doc, plaintext, pubkey, session_key_type, rnd):
     dcv = child(child(ed, XENC, 'CipherData'), XENC, 'CipherValue')
     if ekcv is None or dcv is None:
         raise Fail('template has no CipherValue')
-    set_text(tmpl_doc, ekcv, base64.b64encode(wrapped).decode())
-    set_text(tmpl_doc, dcv, base64.b64encode(ct).decode())
+    set_text(tmpl_doc, ekcv, b64wrap(wrapped))
+    set_text(tmpl_doc, dcv, b64wrap(ct))
     return ed
 
 
